@@ -761,6 +761,20 @@ class Interp(object):
             raise OutOfSubset("complex comprehension")
         g = node.generators[0]
         it = self.eval(g.iter, env)
+        seq = it.seq if isinstance(it, GenVal) else it
+        if hasattr(seq, "freeze"):
+            seq = seq.freeze()
+        if isinstance(seq, SymSeq):
+            # element-wise map over a sequence of symbolic length (the element expression must be pure)
+            def at(k, seq=seq, g=g, node=node, env=env):
+                e2 = Env(parent=env)
+                self.assign(g.target, seq.at(k), e2)
+                self.spec_mode += 1
+                try:
+                    return self.eval(node.elt, e2)
+                finally:
+                    self.spec_mode -= 1
+            return SymSeq(seq.length, at, "map")
         out = []
         for item in self.iter_concrete(it):
             e2 = Env(parent=env)
